@@ -14,79 +14,34 @@ import os
 import re
 import sys
 
-REPO = "/repo"
+import translate_lib
+from translate_lib import Fail, HEADER
+
 OUT = os.path.join(os.path.dirname(os.path.abspath(__file__)), "..", "coq", "Gen")
 
-HEADER = "(* GENERATED by tools/translate.py from {src} -- do not edit.\n   Regenerated on every check run; the committed copy is a snapshot. *)\n"
 
-
-def read(rel):
-    with open(os.path.join(REPO, rel)) as f:
-        return f.read()
-
-
-def fn_body(src, name):
-    """Text of `fn name...{ ... }` (brace matched), or None."""
-    m = re.search(r"\bfn\s+" + re.escape(name) + r"\b", src)
-    if not m:
-        return None
-    i = src.find("{", m.end())
-    # skip `where` clauses etc.: first '{' that opens the body is the first
-    # '{' at generic-depth 0 after the signature's closing ')'
-    depth = 0
-    j = i
-    while j < len(src):
-        if src[j] == "{":
-            depth += 1
-        elif src[j] == "}":
-            depth -= 1
-            if depth == 0:
-                return src[i : j + 1]
-        j += 1
-    return None
-
-
-def coq_bool(b):
-    return "true" if b else "false"
-
-
-class Fail(Exception):
-    pass
-
-
-# ---------------------------------------------------------------- C13: CKK
-def gen_ckk():
-    rel = "src/algorithms/ckk.rs"
-    src = read(rel)
-    body = fn_body(src, "ckk_bipart_rec")
-    if body is None:
-        raise Fail("fn ckk_bipart_rec not found")
-    lits = re.findall(r"separate\s*:\s*(true|false)", body)
-    if len(lits) != 2:
-        raise Fail("expected two `separate:` literals in ckk_bipart_rec, found %d" % len(lits))
-    # the first push follows a_minus_b, the second a_plus_b
-    i1 = body.find("a_minus_b")
-    i2 = body.find("a_plus_b")
-    if not (0 <= i1 < i2):
-        raise Fail("difference branch is expected before the sum branch")
-    out = HEADER.format(src=rel)
-    out += "Definition ckk_diff_branch_separate : bool := %s.\n" % lits[0]
-    out += "Definition ckk_sum_branch_separate : bool := %s.\n" % lits[1]
-    return out
-
-
-GENERATORS = {
-    "CkkGen.v": gen_ckk,
-}
+def load_generators():
+    """Collect the GENERATORS dicts of tools/props_d/*.py."""
+    import importlib.util
+    gens = {}
+    d = os.path.join(os.path.dirname(os.path.abspath(__file__)), "props_d")
+    for f in sorted(os.listdir(d)):
+        if not f.endswith(".py"):
+            continue
+        spec = importlib.util.spec_from_file_location("props_d_" + f[:-3], os.path.join(d, f))
+        m = importlib.util.module_from_spec(spec)
+        spec.loader.exec_module(m)
+        gens.update(getattr(m, "GENERATORS", {}))
+    return gens
 
 
 def main(argv):
-    global REPO, OUT
+    global OUT
     only = None
     i = 1
     while i < len(argv):
         if argv[i] == "--repo":
-            REPO = argv[i + 1]; i += 2
+            translate_lib.REPO = argv[i + 1]; i += 2
         elif argv[i] == "--out":
             OUT = argv[i + 1]; i += 2
         elif argv[i] == "--only":
@@ -95,7 +50,7 @@ def main(argv):
             i += 1
     os.makedirs(OUT, exist_ok=True)
     rc = 0
-    for name, gen in GENERATORS.items():
+    for name, gen in load_generators().items():
         if only and name not in only:
             continue
         path = os.path.join(OUT, name)
